@@ -649,7 +649,9 @@ func (s *session) update(logID string, old uint64, cp []byte, proof [][]byte, ex
 			faultLetters += map[string]string{"begin": "W", "query": "R", "next": "R", "exec": "S", "commit": "S", "rollback": "C"}[d]
 		}
 	}
-	if s.prerecord {
+	// ground truth for the oracle: the harness asks its own recording verifier about the submitted note,
+	// so the model never depends on which verifications the code under test chose to perform
+	{
 		for _, l := range s.logs {
 			if l.id == logID {
 				_, _ = note.Open(cp, note.VerifierList(l.rv))
